@@ -9,6 +9,8 @@ import pulsarbat as pb
 
 from .. import exact, gen, probes, monitors
 
+from ..replay import wl_R
+
 RULE = ("dual-polarisation signals with random complex samples over 12 decades of modulus (plus zeros, purely real/imaginary), c8/c16, "
         "nchan 1-5, trailing dimensions after the polarisation axis, both starting bases, NumPy/Dask. Every to_linear/to_circular/"
         "to_stokes/to_intensity call and every Stokes component access is judged against an independent complex128 evaluation of the "
@@ -264,9 +266,14 @@ def wl_pol(ctx, idx, rng):
     ctx.bucket(pol, np.dtype(dtype).name, nchan, trailing, "dask" if use_dask else "np", magnitude)
 
 
+def install_universal(ctx):
+    PolMonitor(ctx).install()
+    return probes.detach_all
+
+
 def workloads(ctx):
     q = ctx.tier == "quick"
-    return [("pol", 1280 if q else 25600, wl_pol)]
+    return [("R", 1, wl_R), ("pol", 1280 if q else 25600, wl_pol)]
 
 
 def setup(ctx):
